@@ -384,11 +384,16 @@ func c17Check(profile []byte, accept []string, hasDesc bool, via string) (kind, 
 		}
 		return "", "ok"
 	}
-	if via == "reader-reused" || via == "data+eof" {
+	if via == "reader-reused" || via == "data+eof" || strings.HasPrefix(via, "bufio:") {
 		var p *icc.Profile
 		var err error
 		var pan any
-		if via == "reader-reused" {
+		if strings.HasPrefix(via, "bufio:") {
+			// a buffered reader whose buffer is smaller than the tag table, than one tag, than the header
+			var n int
+			fmt.Sscanf(via, "bufio:%d", &n)
+			p, err, pan = readProfile(bufio.NewReaderSize(bytes.NewReader(data), n))
+		} else if via == "reader-reused" {
 			// one ProfileReader for two profiles back to back in one stream: the second is this one
 			first := structuredProfile(core.NewRNG(int64(len(data)), "c17first"), len(data)%3)
 			pr := icc.NewProfileReader(bytes.NewReader(append(append([]byte{}, first...), data...)))
@@ -534,7 +539,7 @@ func runC17(r *core.Run) {
 		var ring []c17Kept
 		for i := 0; i < n/shards; i++ {
 			p := c17Gen(rg, sh*(n/shards)+i)
-			for _, via := range []string{"direct", "jpeg", "offset", "bufio@4000", "source-reused", "concurrent-description", "after-rejected", "reader-reused", "data+eof"} {
+			for _, via := range []string{"direct", "jpeg", "offset", "bufio@4000", "source-reused", "concurrent-description", "after-rejected", "reader-reused", "data+eof", fmt.Sprintf("bufio:%d", []int{16, 64, 100, 300, 1000}[(i/8)%5])} {
 				if via != "direct" && i%8 != 0 {
 					continue
 				}
